@@ -40,6 +40,15 @@ def run_case(case):
             rec["runs"].append({"ty": absmodel.abs_type(ty), "err": "NONE"})
         except Exception as e:  # the outcome, not a harness failure
             rec["runs"].append({"ty": absmodel.ABSENT, "err": type(e).__name__})
+    # the same values with aliasing: structurally equal containers are one object, inside a value and across values
+    # (a row stored twice, the () singleton, one dict passed to two calls); the inferred type must not care
+    share = {}
+    aliased = [absmodel.real_value(v, share=share) for v in case["vals"]]
+    try:
+        ty = shrink_types([get_type(x, k1) for x in aliased], k)
+        rec["runs"].append({"ty": absmodel.abs_type(ty), "err": "NONE"})
+    except Exception as e:
+        rec["runs"].append({"ty": absmodel.ABSENT, "err": type(e).__name__})
     return rec
 
 
